@@ -10,8 +10,9 @@ import ast
 
 from ..core import rule, AnalysisError
 from ..engine import cfg as cfgmod, flow
+from ..engine import pattern as P
 from ..engine.facts import dotted, const, src, walk_func, enclosing_stmt, ancestors
-from .common import calls, stmt_nodes, in_try_handling, contains, norm_successors
+from .common import calls, stmt_nodes, in_try_handling, contains, norm_successors, pn, access_paths
 
 
 def _lock_attrs(db):
